@@ -523,6 +523,56 @@ static void run_m4(char *line)
     free(args); free(rets);
 }
 
+/* ------------------------------------------------------------------ DQ: sequential scripted qdqueue (M2 style)
+ * script: tokens "<shep>e<v>" enqueue, "<shep>t<target>,<v>" enqueue_there, "<shep>d" dequeue, "<shep>m" empty; each token is
+ * executed by one task forked to the named shepherd; the controller (main task) blocks on the task's return word (FEB).
+ * After every operation: actual shepherd, result, and the contents of every sub-queue (white-box walk). */
+typedef struct { char op; unsigned long v; unsigned target; unsigned actual; unsigned long res; } dq_op_t;
+static aligned_t dq_task(void *a_)
+{
+    dq_op_t *a = a_;
+    a->actual = qthread_shep();
+    switch (a->op) {
+        case 'e': a->res = (unsigned long)qdqueue_enqueue(dq, (void *)(uintptr_t)a->v); break;
+        case 't': a->res = (unsigned long)qdqueue_enqueue_there(dq, (void *)(uintptr_t)a->v, a->target); break;
+        case 'd': a->res = (unsigned long)(uintptr_t)qdqueue_dequeue(dq); break;
+        case 'm': a->res = (unsigned long)qdqueue_empty(dq); break;
+    }
+    return 0;
+}
+static void dq_dump(void)
+{
+    for (unsigned i = 0; i < maxsheps; i++) {
+        printf(" |");
+        qlfqueue_node_t *n = dq->Qs[i].theQ->head ? dq->Qs[i].theQ->head->next : NULL;
+        long k = 0;
+        for (; n && k < 100000; n = n->next, k++) printf(" %lu", (unsigned long)(uintptr_t)n->value);
+    }
+    printf("\n");
+}
+static void run_dq(char *line)
+{
+    char *bar = strchr(line, '|');
+    dq = qdqueue_create();
+    printf("S %u", (unsigned)maxsheps); dq_dump();
+    alarm(60);
+    for (char *tok = strtok(bar ? bar + 1 : NULL, " \n"); tok; tok = strtok(NULL, " \n")) {
+        dq_op_t a; memset(&a, 0, sizeof a);
+        char *e; unsigned shep = (unsigned)strtoul(tok, &e, 10);
+        a.op = *e++;
+        if (a.op == 'e') a.v = strtoul(e, NULL, 10);
+        if (a.op == 't') { a.target = (unsigned)strtoul(e, &e, 10); a.v = strtoul(e + 1, NULL, 10); }
+        if (shep >= qthread_num_shepherds()) { printf("r CONFIG\n"); continue; }
+        aligned_t ret = 0;
+        qthread_fork_to(dq_task, &a, &ret, shep);
+        qthread_readFF(NULL, &ret);
+        printf("r %u %c %lu", a.actual, a.op, a.res); dq_dump();
+    }
+    alarm(0);
+    printf("F\n");
+    qdqueue_destroy(dq);
+}
+
 /* qdqueue allsheps arrays must name every other shepherd (hypothesis alls_ok of Dq.v) */
 static void run_da(void)
 {
@@ -573,6 +623,7 @@ int main(int argc, char **argv)
         else if (!strncmp(line, "LF", 2)) run_lf(line);
         else if (!strncmp(line, "M4", 2)) run_m4(line);
         else if (!strncmp(line, "DA", 2)) run_da();
+        else if (!strncmp(line, "DQ", 2)) run_dq(line);
         else if (line[0] == 'Q') break;
         fflush(stdout);
     }
